@@ -144,7 +144,7 @@ func excuse(rec *ev.Rec, c *genCase, f pipeline.Flags, kind, detail string) bool
 	for _, w := range witnesses {
 		trig := false
 		for _, cl := range w.classes {
-			if c.has("collision:" + cl) {
+			if c.has("collision:"+cl) && (w.clWhen[cl] == nil || w.clWhen[cl](f)) {
 				trig = true
 			}
 		}
